@@ -433,6 +433,12 @@ func (m *vMonitor) after(x *vRun, o vOp, ob string) {
 			}
 			for id := range lg {
 				if _, ok := real[id]; !ok {
+					if (o.kind == 'L' || o.kind == 'U') && o.key != key {
+						// the replies say LockId `id` holds this key, no reply has ended that hold, and the operation just completed was
+						// addressed to ANOTHER key: the key record has lost a holder (or the key record itself is no longer reachable) —
+						// the next request for this key will be admitted as if the hold did not exist
+						m.report("C01:holder-lost-from-key-record", fmt.Sprintf("by the replies LockId %d holds key %d (depth %d), but after `%s` (another key) the key shows %v", id, key, lg[id], o.String(), ks.holds))
+					}
 					delete(lg, id)
 				}
 			}
